@@ -173,4 +173,5 @@ def dcall(name: str, out_struct, *args, meta=None):
         nd_ct = [np.zeros(v.shape, jax.dtypes.float0) if not jnp.issubdtype(v.dtype, jnp.inexact) else None for v in nd_vals]
         return (list(grads), nd_ct)
 
+    f.defvjp(fwd, bwd)
     return f([flat_args[i] for i in diff_idx], nondiff)
